@@ -391,6 +391,14 @@ func loadKnown(path, prop string) map[string]known {
 	return m
 }
 
+// outDir: evidence and replays go to /verif unless VERIF_OUT redirects them (side runs that must not touch the committed files).
+func outDir(verif, sub string) string {
+	if o := os.Getenv("VERIF_OUT"); o != "" {
+		return filepath.Join(o, sub)
+	}
+	return filepath.Join(verif, sub)
+}
+
 // ParentMain runs a whole check; returns the process exit code.
 func ParentMain(id, tier string) int {
 	c := Get(id)
@@ -470,7 +478,7 @@ func ParentMain(id, tier string) int {
 
 	// classify
 	kn := loadKnown(filepath.Join(verif, "known_findings.jsonl"), id)
-	os.MkdirAll(filepath.Join(verif, "replays"), 0755)
+	os.MkdirAll(outDir(verif, "replays"), 0755)
 	newViol := 0
 	knownSeen := 0
 	sort.Slice(total.Violations, func(i, j int) bool { return total.Violations[i].Fingerprint < total.Violations[j].Fingerprint })
@@ -482,7 +490,7 @@ func ParentMain(id, tier string) int {
 			continue
 		}
 		newViol++
-		path := filepath.Join(verif, "replays", fmt.Sprintf("%s-%s.json", id, v.Fingerprint))
+		path := filepath.Join(outDir(verif, "replays"), fmt.Sprintf("%s-%s.json", id, v.Fingerprint))
 		b, _ := json.MarshalIndent(map[string]any{"property": id, "fingerprint": v.Fingerprint, "what": v.What, "unit": v.Unit, "tier": tier, "witness": v.Witness}, "", " ")
 		os.WriteFile(path, b, 0644)
 		if newViol <= 25 {
@@ -739,6 +747,6 @@ func writeEvidence(verif string, c *Check, tier string, seed int, r *Result, wal
 		"violations":  newViol,
 	}
 	b, _ := json.MarshalIndent(ev, "", " ")
-	os.MkdirAll(filepath.Join(verif, "evidence"), 0755)
-	os.WriteFile(filepath.Join(verif, "evidence", c.ID+".json"), b, 0644)
+	os.MkdirAll(outDir(verif, "evidence"), 0755)
+	os.WriteFile(filepath.Join(outDir(verif, "evidence"), c.ID+".json"), b, 0644)
 }
